@@ -419,6 +419,33 @@ theorem C08_feature_multi (t : MTagDesc) (nfeats idx : Nat) (stop : SliceMode) (
       | exact ws h1 h3 h4 h5 h6 => simp only [viewIfInData, h3, h4]; exact ⟨trivial, trivial, h5, h6⟩
       | beyond ws h1 h2 h3 h4 => simp only [viewIfInData, h3]; exact Or.inr ⟨trivial, Or.inr h2⟩
 
+/-! ## the statement without `Separated` is false (C07's tolerance band, by design) -/
+
+/-- the one-axis statement without the tolerance hypotheses -/
+def C08_axis_full : Prop :=
+  ∀ (stop : SliceMode) (dim : DimDesc) (p : Rat) (e? : Option Rat) (unit : Option Str) (sc : Rat),
+    DimOK dim → UnitRel unit dim sc →
+    match axisSlice stop dim p e? unit with
+    | .ok w => AxisSpec dim (regionOf stop p e? sc) w
+    | .error err => err = .indexError ∧ ∀ i, InDom (dimDom dim) i → ¬ InRegion dim (regionOf stop p e? sc) i
+
+/-- interval 1, offset 0, position 3 + 2⁻³⁰, no extent: the code selects sample 3 (inside the `np.isclose`
+band), whose coordinate 3 is not the position — inherited from C07 (open finding C07-tolerance-band) -/
+theorem C08_axis_full_counterexample : ¬ C08_axis_full := by
+  intro h
+  have h1 := h .exclusive (.sampled 0 1 none) (3 + 1 / 2 ^ 30) none none 1
+    (by show (0 : Rat) < 1; norm_num) (UnitRel.noTagUnit _)
+  have hv : axisSlice .exclusive (.sampled 0 1 none) (3 + 1 / 2 ^ 30) none none = .ok (some (3, 4)) := by
+    decide +kernel
+  rw [hv] at h1
+  obtain ⟨ka, kb, ha, hb, hle, hdom, hall⟩ := h1
+  have hka : ka = 3 := by omega
+  have hkb : kb = 3 := by omega
+  subst hka hkb
+  have := (hall 3 (by intro m hm; cases hm)).mpr ⟨le_refl _, le_refl _⟩
+  simp only [InRegion, regionOf, stopOf, InInterval, dimCoord, sampledCoord, sampledPositionAt] at this
+  norm_num at this
+
 /-! ## non-vacuity: the hypotheses are met by concrete, non-trivial inputs -/
 
 /-- a 6 × 3 array: ticks 1, 2, 4, 7, 8, 10 (seconds) × three labels -/
